@@ -3,9 +3,13 @@
 package ctlog
 
 import (
+	"bytes"
 	"context"
+	"encoding/json"
 	"errors"
 	"fmt"
+	"net/http"
+	"net/http/httptest"
 	"strings"
 	"sync"
 	"testing"
@@ -101,6 +105,20 @@ type c17Waiter struct {
 	evicted bool
 	// submitted when the sequencer was already known to have stopped
 	afterStop bool
+	// submitted through the HTTP handler (a duplicate of an entry submitted directly before): status and Retry-After
+	http  bool
+	code  int
+	retry string
+}
+
+// c17HTTPError is the outcome of an HTTP submission that was not answered 200.
+type c17HTTPError struct {
+	code int
+	body string
+}
+
+func (e c17HTTPError) Error() string {
+	return fmt.Sprintf("HTTP %d %s", e.code, strings.TrimSpace(e.body))
 }
 
 func (w *c17Waiter) outcome() (bool, *sunlight.LogEntry, error) {
@@ -149,6 +167,13 @@ func c17Run(t *testing.T, plan c17Plan, dir string, st map[string]int, desc *[]s
 			return
 		}
 		defer l.CloseCache()
+		simCAInit()
+		if err := l.SetRootsFromPEM(simInlineCtx(context.Background()), simCA.pem); err != nil {
+			fail("VERIF-INCONCLUSIVE: SetRootsFromPEM: %v", err)
+			return
+		}
+		handler := l.Handler()
+		chainOf := map[int][]byte{} // entry id -> certificate, for the entries that can also be posted to add-chain
 		ctx, cancel := context.WithCancel(context.Background())
 		defer cancel()
 		// waiters that a defect leaves stranded are released at the very end so that the bubble can be torn down
@@ -230,33 +255,13 @@ func c17Run(t *testing.T, plan c17Plan, dir string, st map[string]int, desc *[]s
 				}
 			}
 		}
+		viaHTTPNext := false
 		submit := func(e *simEntry, low bool) {
 			l.poolMu.Lock()
 			cur := l.currentPool
 			l.poolMu.Unlock()
 			m := model(cur)
 			key := e.dedupKey()
-			var f waitEntryFunc
-			var src string
-			func() {
-				defer func() {
-					if r := recover(); r != nil {
-						fail("the server panicked while admitting entry %d (low=%v, pool %d/%d): %v", e.ID, low, m.occ, plan.PoolSize, r)
-					}
-				}()
-				f, src = l.addLeafToPool(simInlineCtx(context.Background()), e.P, low)
-			}()
-			if f == nil {
-				return
-			}
-			w := &c17Waiter{id: len(waiters), entry: e, low: low, src: src, afterStop: stopSeen}
-			waiters = append(waiters, w)
-			go func() {
-				le, err := f(wctx)
-				w.mu.Lock()
-				w.done, w.le, w.err, w.doneAt = true, le, err, time.Now()
-				w.mu.Unlock()
-			}()
 			now := time.Since(start).Milliseconds()
 			// expected admission decision
 			exp := ""
@@ -295,13 +300,80 @@ func c17Run(t *testing.T, plan c17Plan, dir string, st map[string]int, desc *[]s
 			default:
 				exp = "sequencer"
 			}
-			descf("[%dms] submit entry %d low=%v -> %s (expected %s, occupancy %d/%d)", now, e.ID, low, src, exp, m.occ, plan.PoolSize)
+			var f waitEntryFunc
+			var src string
+			var w *c17Waiter
+			der := chainOf[e.ID]
+			viaHTTP := viaHTTPNext && der != nil && plan.ReadOnly == 0 &&
+				(exp == "pool" || exp == "pool-in-sequencing" || exp == "refused-evicted-dup" || exp == "cache" || exp == "closed")
+			viaHTTPNext = false
+			if viaHTTP {
+				// the same chain posted to add-chain: a second submitter of an entry the log already knows
+				st["duplicates-over-http"]++
+				src = map[string]string{"pool": "pool", "pool-in-sequencing": "pool", "refused-evicted-dup": "pool", "cache": "cache", "closed": "closed"}[exp]
+				w = &c17Waiter{id: len(waiters), entry: e, low: low, src: src, afterStop: stopSeen, http: true}
+				waiters = append(waiters, w)
+				body, _ := json.Marshal(map[string]any{"chain": [][]byte{der}})
+				req := httptest.NewRequest("POST", "/ct/v1/add-chain", bytes.NewReader(body)).WithContext(wctx)
+				rec := httptest.NewRecorder()
+				go func() {
+					defer func() {
+						if r := recover(); r != nil {
+							w.mu.Lock()
+							w.done, w.code, w.err, w.doneAt = true, 0, fmt.Errorf("handler panicked: %v", r), time.Now()
+							w.mu.Unlock()
+						}
+					}()
+					handler.ServeHTTP(rec, req)
+					w.mu.Lock()
+					defer w.mu.Unlock()
+					w.done, w.code, w.retry, w.doneAt = true, rec.Code, rec.Header().Get("Retry-After"), time.Now()
+					if rec.Code == http.StatusOK {
+						idx, ts, err := s.simCheckSCT(e, rec.Body.Bytes())
+						if err != nil {
+							w.err = fmt.Errorf("200 answer with a bad SCT: %v", err)
+						} else {
+							w.le = e.P.asLogEntry(idx, ts)
+						}
+					} else {
+						w.err = c17HTTPError{rec.Code, rec.Body.String()}
+					}
+				}()
+				synctest.Wait()
+			} else {
+				func() {
+					defer func() {
+						if r := recover(); r != nil {
+							fail("the server panicked while admitting entry %d (low=%v, pool %d/%d): %v", e.ID, low, m.occ, plan.PoolSize, r)
+						}
+					}()
+					f, src = l.addLeafToPool(simInlineCtx(context.Background()), e.P, low)
+				}()
+				if f == nil {
+					return
+				}
+				w = &c17Waiter{id: len(waiters), entry: e, low: low, src: src, afterStop: stopSeen}
+				waiters = append(waiters, w)
+				go func() {
+					le, err := f(wctx)
+					w.mu.Lock()
+					w.done, w.le, w.err, w.doneAt = true, le, err, time.Now()
+					w.mu.Unlock()
+				}()
+			}
+			how := ""
+			if viaHTTP {
+				how = " over HTTP"
+			}
+			descf("[%dms] submit entry %d low=%v%s -> %s (expected %s, occupancy %d/%d)", now, e.ID, low, how, src, exp, m.occ, plan.PoolSize)
 			switch exp {
 			case "refused-evicted-dup":
 				st["resubmitted-evicted"]++
 				synctest.Wait()
-				if done, _, err := w.outcome(); !done || (err != errEvicted && err != errPoolFull) {
+				if done, _, err := w.outcome(); !done || (err != errEvicted && err != errPoolFull && !w.http) {
 					fail("resubmission of an entry evicted from the current (full) pool must be refused with a retry-later error at once, got done=%v err=%v source=%s", done, err, src)
+				} else if w.http && (w.code != http.StatusServiceUnavailable || w.retry == "") {
+					fail("a submitter of an evicted entry must get a retry-later answer (503 with Retry-After) over HTTP, got status %d, Retry-After %q: %v", w.code, w.retry, err)
 				}
 			case "closed":
 				if src == "sequencer" || src == "pool" {
@@ -369,6 +441,11 @@ func c17Run(t *testing.T, plan c17Plan, dir string, st map[string]int, desc *[]s
 				if src != "cache" {
 					fail("duplicate of an acknowledged entry got source %q", src)
 				}
+				if w.http {
+					if done, _, err := w.outcome(); !done || err != nil {
+						fail("duplicate of an acknowledged entry over HTTP must be answered 200 with the earlier SCT at once, got done=%v: %v", done, err)
+					}
+				}
 			case "sequencer":
 				if src != "sequencer" {
 					fail("submission into a pool with room (%d/%d) got source %q", m.occ, plan.PoolSize, src)
@@ -407,9 +484,16 @@ func c17Run(t *testing.T, plan c17Plan, dir string, st map[string]int, desc *[]s
 					continue
 				}
 				d := submitted[a.Arg%len(submitted)]
+				viaHTTPNext = a.Arg%2 == 0
 				submit(d, lowOf[d.ID])
 			default:
 				e := simMakeEntry(nextID, nextID%2)
+				if nextID%3 != 2 {
+					// a real certificate chaining to the accepted root: the same entry can also arrive through add-chain
+					der := simLeafCert(5000 + nextID)
+					e = &simEntry{ID: nextID, Shape: "chain", P: &PendingLogEntry{Certificate: der, Issuers: [][]byte{simCA.rootDER}}}
+					chainOf[e.ID] = der
+				}
 				nextID++
 				submitted = append(submitted, e)
 				lowOf[e.ID] = a.Kind == "low"
@@ -506,7 +590,14 @@ func c17Run(t *testing.T, plan c17Plan, dir string, st map[string]int, desc *[]s
 			if errors.As(err, &sunset) {
 				st["sunset-errors"]++
 			}
-			if err != nil && w.pool != nil && !w.evicted && !poolDone(w.pool) {
+			evictedKey := w.evicted || (w.pool != nil && models[w.pool] != nil && models[w.pool].evicted[w.entry.dedupKey()])
+			if w.http && evictedKey && (w.code != http.StatusServiceUnavailable || w.retry == "") {
+				fail("submitter %d of the evicted entry %d (over HTTP) must get a retry-later answer (503 with Retry-After), got status %d, Retry-After %q: %v", w.id, w.entry.ID, w.code, w.retry, err)
+			}
+			if w.http && err != nil && w.code == 0 {
+				fail("submitter %d over HTTP: %v", w.id, err)
+			}
+			if err != nil && w.pool != nil && !evictedKey && !poolDone(w.pool) {
 				fail("submitter %d failed (%v) while its pool is still open", w.id, err)
 			}
 		}
@@ -546,7 +637,7 @@ func TestVerifC17Admission(t *testing.T) {
 		}
 		nt := st["evictions"] > 0 || (st["stops"] > 0 && st["pending-failed-at-stop"] > 0)
 		var cls []string
-		for _, k := range []string{"evictions", "rejections", "pool-filled", "stops", "cancels", "read-only-stops", "sunset-errors", "pending-failed-at-stop", "submissions-after-stop", "resubmissions-of-acknowledged-after-stop"} {
+		for _, k := range []string{"evictions", "rejections", "pool-filled", "stops", "cancels", "read-only-stops", "sunset-errors", "pending-failed-at-stop", "submissions-after-stop", "resubmissions-of-acknowledged-after-stop", "duplicates-over-http", "duplicates-of-entries-being-sequenced"} {
 			if st[k] > 0 {
 				cls = append(cls, k)
 			}
